@@ -80,7 +80,7 @@ def factory_closures(repo):
         eng = Engine(model, unroll=1, comp_unroll=1)
         outs = eng.run_function(fi.node, {})
         rets = [o for o in outs if o.kind == RETURN]
-        if len(rets) != 1 or rets[0].val[0] != 'closure':
+        if not rets or any(r.val[0] != 'closure' or r.val[:2] != rets[0].val[:2] for r in rets):
             raise AnalysisError('%s does not return a single nested function' % fi.qual)
         env = rets[0].st.env
         for nm, v in env.items():
@@ -112,6 +112,17 @@ def rule_R_GUARD_STR_KW(ctx, repo):
                     x = e.args[0]
                     facts = isinstance_fact(o, x)
                     ok = any(b and set(names) <= set(['float']) for names, b in facts)
+                    # R-ROUND: the rounding oracle is builtin round(x, tol) applied to the argument itself
+                    tolp = ('param', fi.node.args.args[0].arg) if fi.node.args.args else None
+                    nd = e.args[1] if len(e.args) > 1 else None
+                    rok = nd == tolp or (nd is not None and nd[0] == 'param')
+                    rok = rok and x[0] in ('proj', 'iter', 'param', 'sub')
+                    ctx.ob('R-ROUND', '%s round(%s)' % (node.name, unparse_short(x)), rok)
+                    if not rok:
+                        ctx.fail('R-ROUND', qual, 'round(%s%s)' % (render(x)[:40], ', ' + render(nd) if nd is not None else ''),
+                                 'the key is not rounded with round(x, tol) on the argument itself (%s): ties, NaN/inf and huge values round differently from the '
+                                 'advertised "floats rounded to tol decimals"' % ', '.join(render(a)[:40] for a in e.args),
+                                 '%s:%d' % (m.rel, e.line), render_path(o))
                     ctx.ob('R-GUARD', '%s round@%s' % (node.name, unparse_short(x)), ok)
                     if not ok:
                         ctx.fail('R-GUARD', qual, 'round(%s) unguarded' % render(x),
@@ -315,3 +326,22 @@ def rule_W_KEY_keygen(ctx, repo):
                                  '%s:%d' % (m.rel, cnode.lineno), render_path(co))
     if n < 2:
         raise AnalysisError('instance count below confirmed minimum: %d key computations in klepto.keygen' % n)
+
+
+def rule_R_PURE(ctx, repo):
+    """the rounders never mutate the caller's objects in place (the function must receive the original arguments)"""
+    from . import own
+    n = 0
+    for modname in ('rounding', '_inspect'):
+        m = repo.mod(modname)
+        shared, results = own.analyse_module(m)
+        n += sum(len(ft.sites) for ft in results.values())
+        for q, node, recv, pname, via in own.param_mutations(results):
+            if via:
+                msg = '%s passes the caller-owned object "%s" (from parameter %s) to %s(), which mutates that argument in place' % (q, recv, pname, via)
+            else:
+                msg = '%s mutates "%s" in place, and that object belongs to the caller (it is, or is an element of, parameter %s)' % (q, recv, pname)
+            ctx.ob('R-PURE', '%s::%s' % (m.rel, q), False)
+            ctx.fail('R-PURE', '%s::%s' % (m.rel, q), 'caller-owned %s mutated%s' % (recv, ' via ' + via if via else ''),
+                     msg + ': computing a key changes the arguments the function then receives (and the caller\'s own data)', '%s:%d' % (m.rel, node.lineno))
+    ctx.ob('R-PURE', 'in-place mutation sites examined', True, n=max(1, n))
